@@ -171,7 +171,7 @@ func histShard(ctx *core.Ctx, tier string, maxDepth, bound, shard, nshards int) 
 	trans := new(int64)
 	ctx.Rep.Rule = fmt.Sprintf("BFS over call histories: menu of %d calls over ONE shared set of decoded Patch values and input buffers (Apply on object/array documents, ApplyIndent, copy limit hit, EscapeHTML off, failing test, malformed document, scalar root, inapplicable patch, DecodePatch ok/malformed/invalid/non-array, MergePatch x4 incl. malformed, MergeMergePatches, CreateMergePatch x4 incl. rejected/malformed, Equal x3 incl. malformed, legacy Apply and MergePatch); "+
 		"every Pool.Get answer is a choice (default LIFO; deviations: any other pooled object or a fresh one) and so is the order of every map iteration in the library packages (default sorted; deviations: its rotations), at most %d deviation(s) per history; state (computed for every history shorter than the depth bound) = generic dump of every package-level variable of the three library packages (pools with all private fields of recycled objects, type caches); dedup on the dump, successor = reset + replay shortest path + one call; depth <= %d or closure. "+
-		"Oracle per transition: outcome == the outcome of the same call made alone in a brand-new process (error text / exact bytes for Apply, ApplyIndent, CreateMergePatch, Equal / JSON value otherwise); every shared buffer and Patch identical to its snapshot; every byte slice returned by an earlier call of the history still holds the bytes it was returned with. non-trivial = transitions whose history has >= 2 calls", len(w.menu), bound, maxDepth)
+		"Oracle per transition: outcome == the outcome of the same call made alone in a brand-new process (error text / exact bytes for Apply, ApplyIndent, CreateMergePatch, Equal / JSON value otherwise); every shared buffer and Patch identical to its snapshot; every byte slice returned by an earlier call of the history still holds the bytes it was returned with; and (histories of 2 calls) a caller overwriting the bytes it was handed does not change what the next call returns. non-trivial = transitions whose history has >= 2 calls", len(w.menu), bound, maxDepth)
 	ctx.Rep.Assume = append(ctx.Rep.Assume,
 		"state dump omits slice capacity and elements beyond len (see DESIGN.md E5); equal dumps are taken to have equal futures",
 		"the library's only process-wide mutable state is in package-level variables of its own packages (checked by the generated accessor, which lists every one) and in the shimmed pools/caches; standard-library internals (reflect, strconv caches) are trusted to be result-neutral",
@@ -221,6 +221,21 @@ func histShard(ctx *core.Ctx, tier string, maxDepth, bound, shard, nshards int) 
 					for _, b := range keptModified(kept, nEarlier) {
 						ctx.Violate(core.Violation{Property: "C09", Clause: "earlier-result-modified", Key: "C09:earlier-result-modified:" + w.calls[ci].Name, Engine: "histx",
 							Detail: b + " after the call " + w.calls[ci].Name + " (history " + histText(path) + "): a result must not alias state that later calls write", Case: core.J(HistCase{Path: path})})
+					}
+					// results belong to the caller: with every earlier result overwritten by the caller, the call
+					// must still give its solo outcome (default pool answers; histories of length 2)
+					if depth == 2 && len(prefix) == 0 {
+						w.scribble = true
+						histReplay(w, ctl, node.path)
+						w.scribble = false
+						out2, _ := histRunStep(w, ctl, ci, nil)
+						*trans++
+						if out2 != w.solo[ci] {
+							ctx.Violate(core.Violation{Property: "C09", Clause: "caller-write-to-result-changes-later-call", Key: "C09:caller-write-to-result-changes-later-call:" + w.calls[ci].Name, Engine: "histx",
+								Detail: fmt.Sprintf("after %s, whose returned bytes the caller then overwrote, the call %s returns %q; alone it returns %q", histText(node.path), w.calls[ci].Name, clip(out2, 200), clip(w.solo[ci], 200)),
+								Case:   core.J(HistCase{Path: path, Outcome: out2, Solo: w.solo[ci]})})
+						}
+						w.inputsIntact()
 					}
 					d := deviations(c.trace, len(c.trace))
 					// at the last level nothing is expanded further: the fingerprint is not needed
